@@ -1,0 +1,5 @@
+//go:build !verif
+
+package pop3
+
+func verifSessionSpawned() {}
